@@ -101,6 +101,12 @@ Proof.
   - intros ->. apply index_of_nth; assumption.
 Qed.
 
+Lemma nth_map_lt {A B} (f : A -> B) (l : list A) (i : nat) (d : B) (d' : A) :
+  (i < length l)%nat -> nth i (map f l) d = f (nth i l d').
+Proof.
+  revert i. induction l as [|a t IH]; intros [|i] H; cbn in *; try lia; auto. apply IH. lia.
+Qed.
+
 Lemma unique_classes_sorted y : sorted_lt (fst (unique_with_indices y)).
 Proof. cbn. apply dedupZ_sorted, sortZ_sorted. Qed.
 Lemma unique_classes_in y c : In c (fst (unique_with_indices y)) <-> In c y.
@@ -120,8 +126,7 @@ Proof.
   split; [apply unique_classes_in|].
   split; [cbn; apply map_length|].
   intros i Hi. cbn [snd unique_with_indices].
-  change 0%nat with ((fun c => index_of c (dedupZ (sortZ y))) 0) at 1 3.
-  rewrite map_nth. apply index_of_in.
+  rewrite (nth_map_lt _ _ _ _ 0) by exact Hi. apply index_of_in.
   apply (unique_classes_in y). apply nth_In. exact Hi.
 Qed.
 
